@@ -236,4 +236,48 @@ theorem self_import_skipped_esm (cwd frm imp dir p b ff : Str) (fd : List Str)
   rw [e2, ht2]
   simp
 
+
+theorem trimStartMatchesAux_suffix (pat : Str) : ∀ (n : Nat) (s : Str), ∃ t, s = t ++ trimStartMatchesAux pat n s := by
+  intro n
+  induction n with
+  | zero => intro s; exact ⟨[], by simp [trimStartMatchesAux]⟩
+  | succ n ih =>
+    intro s
+    unfold trimStartMatchesAux
+    cases h : stripPrefix pat s with
+    | none => exact ⟨[], by simp⟩
+    | some r =>
+      by_cases he : pat.isEmpty
+      · simp only [he, if_true]; exact ⟨[], by simp⟩
+      · simp only [he]
+        obtain ⟨t, ht⟩ := ih r
+        refine ⟨pat ++ t, ?_⟩
+        have := stripPrefix_eq_some h
+        rw [this, List.append_assoc]
+        simp only [Bool.false_eq_true, if_false]
+        rw [← ht]
+
+/-- `trim_end_matches` returns a prefix of its argument -/
+theorem trimEndMatches_prefix (pat s : Str) : ∃ t, s = trimEndMatches pat s ++ t := by
+  unfold trimEndMatches trimStartMatches
+  obtain ⟨t, ht⟩ := trimStartMatchesAux_suffix pat.reverse s.reverse.length s.reverse
+  refine ⟨t.reverse, ?_⟩
+  have := congrArg List.reverse ht
+  simpa using this
+
+/-- **only a specifier that starts with `./` can pass the `is_same_file` test** — nothing reached through
+`../` (a parent or sibling directory) is ever taken for the importing file, whatever the file names -/
+theorem same_file_starts_dot_slash (frm spec : Str) (h : isSameFile frm spec = true) :
+    startsWith ['.', '/'] spec = true := by
+  unfold isSameFile at h
+  cases hf : fileName frm with
+  | none => simp [hf] at h
+  | some f =>
+    simp only [hf] at h
+    have heq : ['.', '/'] ++ trimEndMatches dotTs f = trimEndMatches dotJs spec := by simpa using h
+    obtain ⟨t, ht⟩ := trimEndMatches_prefix dotJs spec
+    rw [← heq] at ht
+    rw [ht]
+    simp [startsWith, stripPrefix]
+
 end TsRs.Path
